@@ -216,14 +216,17 @@ func c07Naming(c *core.Ctx, r *core.Report) {
 }
 
 // c07Register: R4.
-func c07Register(c *core.Ctx, r *core.Report) {
+func c07Register(c *core.Ctx, r *core.Report) { registerRules(c, r, "C07.R4") }
+
+// registerRules: RegisterSingleton's decision table under rule.
+func registerRules(c *core.Ctx, r *core.Report, rule string) {
 	sync2Map := c.Named("util/sync2", "Map")
 	load, store := c.DeclaredMethod(sync2Map, "Load"), c.DeclaredMethod(sync2Map, "Store")
 	nameFn := c.Func("util/framework_helper", "GetComponentName")
 	for _, T := range c.Implementors(c.Iface("container", "SingletonRegistry")) {
 		reg := c.DeclaredMethod(T, "RegisterSingleton")
 		if reg == nil || load == nil || store == nil || nameFn == nil {
-			r.Undecided("C07.R4", "role:RegisterSingleton", "", "RegisterSingleton / sync2.Map.Load / Store / GetComponentName not found")
+			r.Undecided(rule, "role:RegisterSingleton", "", "RegisterSingleton / sync2.Map.Load / Store / GetComponentName not found")
 			continue
 		}
 		bad := ""
@@ -287,8 +290,8 @@ func c07Register(c *core.Ctx, r *core.Report) {
 				bad = "left the model: " + u
 			}
 		}
-		smallModelCheck(c, r, "C07.R4", "register@"+core.FnName(reg), reg, 1)
-		r.Check(bad == "", "C07.R4", "register@"+core.FnName(reg), c.FnPos(reg), fmt.Sprintf("RegisterSingleton stores under the component's name only on a miss, ignores re-registration of the same object and panics without storing for a different one (%d abstract runs) %s", runs, bad))
+		smallModelCheck(c, r, rule, "register@"+core.FnName(reg), reg, 1)
+		r.Check(bad == "", rule, "register@"+core.FnName(reg), c.FnPos(reg), fmt.Sprintf("RegisterSingleton stores under the component's name only on a miss, ignores re-registration of the same object and panics without storing for a different one (%d abstract runs) %s", runs, bad))
 	}
 }
 
